@@ -53,6 +53,8 @@ func main() {
 		runC09(*out, *seed, *tier)
 	case "C13":
 		runC13(*out, *seed, *tier)
+	case "C02":
+		runC02(*out, *seed, *tier)
 	case "C10":
 		runC10(*out, *seed, *tier)
 	case "C04":
